@@ -88,7 +88,7 @@ def parts(tier):
     big = tier == "thorough"
     return [Part("cmp", "hyp", strategy=gen_cmp(), n=800000 if big else 40000),
             Part("units", "enum", enum=enum_unitpairs, exhaustive=True, shards=16),
-            Part("universe", "hyp", strategy=universe.gen_linear_case(n_max=6), n=100000 if big else 5000, chunk=1500)]
+            Part("universe", "hyp", strategy=universe.gen_linear_case(n_max=8 if big else 6, max_steps=16 if big else 9), n=200000 if big else 5000, chunk=1500)]
 
 
 def run_case(case, ctx):
